@@ -164,6 +164,7 @@ func runPlanCase(w *out.W, tmp string, c *planCase) {
 		}
 	}
 	obs = append(obs, strings.Join(fobs, " "))
+	kf := keepFiles(c, files)
 	// read back
 	var (
 		got     []string
@@ -205,6 +206,8 @@ func runPlanCase(w *out.W, tmp string, c *planCase) {
 			}
 		}
 	}()
+	kf.firstGot, kf.firstErr = got, readErr != nil
+	ageKept(w, tmp, c)
 	dobs := []string{fmt.Sprintf("dir %d", len(names))}
 	for _, n := range names {
 		dobs = append(dobs, hx(canon(n)))
@@ -398,14 +401,25 @@ func dbmateLineHazard(cmd string) string {
 // matching input predicate of a known defect class names it; otherwise the case's own class.
 func triggerClass(c *planCase) string {
 	p := c.plan
+	// a raw newline in the Comment text the plan carries: known class only for HAND-MADE plans; a
+	// planner that prints a name verbatim into its comment is a new defect, classified by its cause
 	for _, ch := range p.Changes {
 		if strings.Contains(ch.Comment, "\n") {
+			if c.spec != nil {
+				role := "?"
+				for _, f := range c.spec.feats {
+					if strings.ContainsAny(c.spec.hot[f.role], "\n\r") {
+						role = f.role
+					}
+				}
+				return "planner-comment-raw-newline:" + c.d.name + ":" + role
+			}
 			return "comment-newline"
 		}
 	}
 	// the first line of a golang-migrate / flyway file (and of what the DBMate reader keeps) is the
 	// first comment: "-- atlas:delimiter X" there is read by Scanner.init as the delimiter directive
-	if n := c.fm.name; (n == "golang-migrate" || n == "flyway" || n == "dbmate") && len(p.Changes) > 0 &&
+	if n := c.fm.name; c.spec == nil && (n == "golang-migrate" || n == "flyway" || n == "dbmate") && len(p.Changes) > 0 &&
 		strings.HasPrefix(p.Changes[0].Comment, "atlas:delimiter") {
 		return "comment-delimiter-directive"
 	}
@@ -413,9 +427,9 @@ func triggerClass(c *planCase) string {
 		for _, f := range s.feats {
 			v := s.hot[f.role]
 			// Builder.Ident is repaired (C16-ident-double-quote-char); PostgreSQL type names still go
-			// through typeIdent's %q (C16-ident-goquote-escaped, open): a double quote or backslash
+			// (and the schema prefix in front of them) through typeIdent's / schemaPrefix's %q (C16-ident-goquote-escaped, open): a double quote or backslash
 			// in an enum type name is Go-escaped, which no SQL scanner reads
-			if f.role == "enum-type" && s.d.name == "postgres" && strings.ContainsAny(v, "\"\\") {
+			if (f.role == "enum-type" || f.role == "schema") && s.d.name == "postgres" && strings.ContainsAny(v, "\"\\") {
 				return "pg-type-ident-goquote"
 			}
 		}
@@ -459,4 +473,186 @@ func triggerClass(c *planCase) string {
 		return "pg-escape-string"
 	}
 	return c.class
+}
+
+// ---- files returned by a formatter belong to the caller.  The files of case i are kept AS RETURNED
+// (not copied) next to a deep copy; after cases i+1 and i+2 were formatted (other formatters, and the
+// same formatter on another plan) the kept files must be unchanged and must still read back as the
+// statements they read back as right after Format.
+
+type keptFiles struct {
+	c        *planCase
+	files    []migrate.File
+	names    []string
+	copies   [][]byte
+	firstGot []string
+	firstErr bool
+	age      int
+	later    []string
+}
+
+var keptQueue []*keptFiles
+
+func keepFiles(c *planCase, files []migrate.File) *keptFiles {
+	k := &keptFiles{c: c, files: files}
+	for _, f := range files {
+		k.names = append(k.names, f.Name())
+		k.copies = append(k.copies, append([]byte(nil), f.Bytes()...))
+	}
+	keptQueue = append(keptQueue, k)
+	return k
+}
+
+// ageKept is called after case c has been formatted and read.
+func ageKept(w *out.W, tmp string, c *planCase) {
+	var rest []*keptFiles
+	for _, k := range keptQueue {
+		if k.c == c {
+			rest = append(rest, k)
+			continue
+		}
+		k.age++
+		k.later = append(k.later, c.id)
+		if k.age == 1 {
+			// the kept formatter on the later plan, too (same formatter, other plan)
+			k.c.fm.f.Format(c.plan)
+		}
+		if k.age >= 2 {
+			verifyKept(w, tmp, k)
+			continue
+		}
+		rest = append(rest, k)
+	}
+	keptQueue = rest
+}
+
+func flushKept(w *out.W, tmp string) {
+	for _, k := range keptQueue {
+		verifyKept(w, tmp, k)
+	}
+	keptQueue = nil
+}
+
+func verifyKept(w *out.W, tmp string, k *keptFiles) {
+	w.Count("kept-files-verified")
+	changed := ""
+	for i, f := range k.files {
+		if f.Name() != k.names[i] || string(f.Bytes()) != string(k.copies[i]) {
+			changed = fmt.Sprintf("file %d (%q): %d bytes kept, now %q… instead of %q…", i, k.names[i], len(k.copies[i]), trunc(string(f.Bytes()), 60), trunc(string(k.copies[i]), 60))
+			break
+		}
+	}
+	// read the kept files (their CURRENT bytes) through the matching reader
+	dir := filepath.Join(tmp, k.c.id+"-kept")
+	os.MkdirAll(dir, 0o755)
+	defer os.RemoveAll(dir)
+	for _, f := range k.files {
+		os.WriteFile(filepath.Join(dir, f.Name()), f.Bytes(), 0o644)
+	}
+	var got []string
+	failed := false
+	func() {
+		defer func() {
+			if r := recover(); r != nil {
+				failed = true
+			}
+		}()
+		d, err := k.c.fm.open(dir)
+		if err != nil {
+			failed = true
+			return
+		}
+		ff, err := d.Files()
+		if err != nil {
+			failed = true
+			return
+		}
+		for _, f := range ff {
+			st, err := migrate.FileStmts(k.c.d.drv, f)
+			if err != nil {
+				failed = true
+				return
+			}
+			got = append(got, st...)
+		}
+	}()
+	same := failed == k.firstErr && (failed || reflect.DeepEqual(got, k.firstGot))
+	if changed != "" || !same {
+		msg := fmt.Sprintf("files of plan %s (%s) kept by the caller changed after the plans %v were formatted", k.c.id, k.c.desc, k.later)
+		if changed != "" {
+			msg += ": " + changed
+		}
+		if !same {
+			msg += fmt.Sprintf("; read back now: %d statements (error %v), right after Format: %d statements (error %v)", len(got), failed, len(k.firstGot), k.firstErr)
+		}
+		w.Violation(k.c.id, "formatter-files-not-callers", msg)
+	}
+}
+
+// memDirCheck: three plans written to ONE MemDir through Planner.WritePlan must read back, file by
+// file, as each plan read alone does.
+func memDirCheck(w *out.W, ids [3]string, ds [3]dialect, ps [3]*migrate.Plan) {
+	w.Count("memdir-triples")
+	read := func(d *migrate.MemDir) (map[string][]string, bool) {
+		res := map[string][]string{}
+		ff, err := d.Files()
+		if err != nil {
+			return nil, false
+		}
+		for _, f := range ff {
+			var dl dialect
+			for k := 0; k < 3; k++ {
+				if strings.HasPrefix(f.Name(), fmt.Sprintf("2024010100000%d", k)) {
+					dl = ds[k]
+				}
+			}
+			st, err := migrate.FileStmts(dl.drv, f)
+			if err != nil {
+				st = []string{"<error>"}
+			}
+			res[f.Name()] = st
+		}
+		return res, true
+	}
+	shared := &migrate.MemDir{}
+	pl := migrate.NewPlanner(nil, shared, migrate.PlanWithChecksum(false))
+	alone := map[string][]string{}
+	for k := 0; k < 3; k++ {
+		q := clonePlan(ps[k])
+		q.Version, q.Name = fmt.Sprintf("2024010100000%d", k), "n"
+		if err := pl.WritePlan(q); err != nil {
+			return
+		}
+		single := &migrate.MemDir{}
+		q2 := clonePlan(ps[k])
+		q2.Version, q2.Name = q.Version, "n"
+		if err := migrate.NewPlanner(nil, single, migrate.PlanWithChecksum(false)).WritePlan(q2); err != nil {
+			return
+		}
+		r, ok := read(single)
+		if !ok {
+			return
+		}
+		for n, st := range r {
+			alone[n] = st
+		}
+	}
+	got, ok := read(shared)
+	if !ok || !reflect.DeepEqual(got, alone) {
+		for n, st := range alone {
+			if !reflect.DeepEqual(got[n], st) {
+				w.Violation(ids[0], "memdir-files-interfere", fmt.Sprintf("plans %v written to one MemDir through Planner.WritePlan: file %s reads back %d statements (first %q), alone it reads %d (first %q)",
+					ids, n, len(got[n]), trunc(first(got[n]), 80), len(st), trunc(first(st), 80)))
+				return
+			}
+		}
+		w.Violation(ids[0], "memdir-files-interfere", fmt.Sprintf("plans %v written to one MemDir: the directory lists other files than the three plans alone", ids))
+	}
+}
+
+func first(s []string) string {
+	if len(s) == 0 {
+		return ""
+	}
+	return s[0]
 }
